@@ -38,6 +38,13 @@ fn sample_ranges(bs: &[Vec<u8>], rng: &mut Rng, n: usize) -> Vec<Vec<(u8, Vec<u8
         if rng.chance(2, 3) {
             c.push((2 + rng.below(2) as u8, rng.pick(bs).clone()));
         }
+        // a side set twice: the later setting wins, also when it is the empty key (ge "" = no lower bound,
+        // lt "" = nothing at all)
+        if rng.chance(1, 3) {
+            let side = rng.below(2) as u8 * 2;
+            let b = if rng.chance(1, 2) { vec![] } else { rng.pick(bs).clone() };
+            c.push((side + rng.below(2) as u8, b));
+        }
         rs.push(c);
     }
     rs
@@ -144,6 +151,13 @@ impl Prop for P {
             }
             for _ in 0..6 {
                 rs.push(vec![(rng.below(2) as u8, rng.pick(&near).clone()), (2 + rng.below(2) as u8, rng.pick(&near).clone())]);
+            }
+            // a bound reset by a later call on the same side, to the empty key and to another key
+            for _ in 0..4 {
+                let b = rng.pick(&near).clone();
+                rs.push(vec![(rng.below(2) as u8, b.clone()), (0, vec![])]);
+                rs.push(vec![(2 + rng.below(2) as u8, b.clone()), (2, vec![])]);
+                rs.push(vec![(rng.below(2) as u8, b), (rng.below(2) as u8, rng.pick(&near).clone())]);
             }
             stats.add("searches", rs.len() as u64);
             stats.bump("directed_literal_is_key_bounds_around_literal");
